@@ -88,17 +88,44 @@ def all_stable(inst):
 
 
 # ---- implementation -------------------------------------------------------------------------------
-def call_gs(inst, oriented, zero_indexed, dtype=None):
+def call_gs(inst, oriented, zero_indexed, dtype=None, ctx=None):
+    """`ctx` (optional, one per worker batch): {"bufs": Buffers, "rules": {}, "rng": random.Random} -- rule objects and argument
+    buffers are then reused across calls and integer dtypes / capacity dtypes vary (none of this may change the answer)"""
     from socialchoicekit.deterministic_matching import GaleShapley
     from socialchoicekit.profile_utils import StrictProfile
     R = to_np(inst["R"])
     H = to_np(inst["H"])
+    cdt = int
     if dtype is not None:
         R = R.astype(dtype)
         H = H.astype(dtype)
-    c = np.array(inst["c"], dtype=int)
-    out = GaleShapley(resident_oriented=oriented, zero_indexed=zero_indexed).scf(StrictProfile.of(R), StrictProfile.of(H), c)
+    elif ctx is not None:
+        complete = not (np.isnan(R).any() or np.isnan(H).any())
+        if complete and ctx["rng"].random() < 0.5:
+            from harness.common import pick_int_dtype
+            d = pick_int_dtype(ctx["rng"], max(inst["n"], inst["m"]))
+            R = R.astype(d)
+            H = H.astype(d)
+        cdt = ctx["rng"].choice(["int64", "int64", "int32", "uint8", "uint16", "uint64"])
+    c = np.array(inst["c"], dtype=cdt)
+    if ctx is not None:
+        R = ctx["bufs"].get("R", R)
+        H = ctx["bufs"].get("H", H)
+        c = ctx["bufs"].get("c", c)
+        key = (oriented, zero_indexed)
+        if key not in ctx["rules"]:
+            ctx["rules"][key] = GaleShapley(resident_oriented=oriented, zero_indexed=zero_indexed)
+        rule = ctx["rules"][key]
+    else:
+        rule = GaleShapley(resident_oriented=oriented, zero_indexed=zero_indexed)
+    out = rule.scf(StrictProfile.of(R), StrictProfile.of(H), c)
     return [[int(a), int(b)] for a, b in out]
+
+
+def new_ctx(seed=0):
+    import random
+    from harness.common import Buffers
+    return {"bufs": Buffers(), "rules": {}, "rng": random.Random(seed)}
 
 
 @guard
